@@ -213,3 +213,124 @@ Print Assumptions C08_sliced_revision_not_archived.
 Example C08_names_unique : NoDup (map sname (dw_sets wit_gc_world)).
 Proof. vm_compute. repeat constructor; cbn; intuition discriminate. Qed.
 Print Assumptions C08_names_unique.
+
+(** * The handover clause at system level *)
+From PKO Require Import HandoverProofs.
+
+(** The full clause is REFUTED for the code as it is, in three independent ways; each witness is a history from an empty
+    cluster on which the model and the real controllers agree step by step (checks/C08.py, handover corpus) and which ends
+    with the teardown of an archived revision deleting an object that the next newer revision (active, not deleted) lists.
+    [handover_violation hash slices w n r nx k]: in world w the ObjectSet n = r is archived, nx is listed right after it,
+    is active, lists k, k exists, and the next pass of the ObjectSet controller for n removes k. *)
+
+(** F-C08c: status.controllerOf stops at the first phase whose probe fails (also in the paused pass that confirms Paused=True):
+    ordinary passes only (fresh fault-free deployment passes, full ObjectSet passes, edits, probe inputs). *)
+Theorem C08_handover_refuted_truncated :
+  exists hash slices w0 h n r nx k,
+    from_scratch w0 /\ forallb plain_step h = true /\
+    handover_violation hash slices (run hash slices w0 h) n r nx k /\
+    is_status_paused r = true /\ controls (os_id (ds_set r)) (run hash slices w0 h) k /\
+    (exists o, stored (run hash slices w0 h) k = Some o /\ o_cache o = true) /\ ~ In k (os_ctrlof (ds_set r)).
+Proof. exact handover_refuted_truncated. Qed.
+Print Assumptions C08_handover_refuted_truncated.
+
+(** F-C08d: single-phase outgoing revision; the teardown of an older revision removed the cache label of an object it had handed
+    over, the paused pass (deployment paused) does not see the object, and the stale Paused=True is accepted after the unpause. *)
+Theorem C08_handover_refuted_cache_label :
+  exists hash slices w0 h n r nx k,
+    from_scratch w0 /\
+    handover_violation hash slices (run hash slices w0 h) n r nx k /\
+    length (os_phases (ds_set r)) = 1%nat /\
+    is_status_paused r = true /\ controls (os_id (ds_set r)) (run hash slices w0 h) k /\
+    (exists o, stored (run hash slices w0 h) k = Some o /\ o_cache o = false) /\ ~ In k (os_ctrlof (ds_set r)).
+Proof. exact handover_refuted_cache_label. Qed.
+Print Assumptions C08_handover_refuted_cache_label.
+
+(** F-C08e: single phases only, ordinary passes only, the deployment never paused, controllerOf of the outgoing revision complete:
+    the archival rests on the Available report of a revision that controls nothing. *)
+Theorem C08_handover_refuted_stale_available :
+  exists hash slices w0 h n r nx k,
+    from_scratch w0 /\ forallb plain_step h = true /\ forallb one_phase_step h = true /\
+    (length (d_phases (dw_dep w0)) <= 1)%nat /\
+    handover_violation hash slices (run hash slices w0 h) n r nx k /\
+    is_available nx = true /\ os_ctrlof (ds_set nx) = [] /\ In k (os_ctrlof (ds_set r)).
+Proof. exact handover_refuted_stale_available. Qed.
+Print Assumptions C08_handover_refuted_stale_available.
+
+(** What holds. (i) Control is gained in one way only: along any history, a step after which an ObjectSet controls an object it did not
+    control before is a pass of the ObjectSet controller for an ObjectSet of that kind and name that is active (not archived, not
+    deleted) and not paused. Every other step - passes of other ObjectSets (adoption, teardown), deployment passes, edits, status
+    and probe changes, passes of the ObjectSet itself while paused, archived or deleted - can only shrink what it controls. *)
+Theorem C08_control_gained_only_by_own_active_pass :
+  forall hash slices id w s,
+    ~ own_active_pass id w s -> no_gain id (dstore w) (dstore (do_step hash slices w s)).
+Proof. exact (fun hash slices => step_no_gain hash slices true true). Qed.
+Print Assumptions C08_control_gained_only_by_own_active_pass.
+
+(** (ii) The handover clause, PARTIAL, relative to the archive decision. If at the deployment pass that archives revision n
+    (a) no newer listed revision reports Available [excludes F-C08e: the decision then rests on controllerOf] and
+    (b) the stored status.controllerOf of n lists every stored object n controls [excludes F-C08c, F-C08d],
+    then, along any continuation (any steps: passes, edits, pauses, status changes, faults) in which no re-created ObjectSet of n's
+    name runs an active pass, no pass of the ObjectSet controller for the archived or deleted n removes an object that the revision
+    listed right after n at the decision contains, inline or in its ObjectSlices. All three hypotheses are boolean tests. *)
+Theorem C08_handover_sound_partial :
+  forall hash slices fault stale w w1 evs res n pbp ur r,
+    NoDup (map sname (dw_sets w)) ->
+    dep_pass hash fault slices stale w = (w1, evs, res) -> In (DUpdate n LArchived pbp ur) evs ->
+    find_dset (dw_sets w) n = Some r ->
+    no_newer_available_b (listed stale w) r = true ->
+    ctrl_complete_b w r = true ->
+    exists nx, next_in n (listed stale w) = Some nx /\ (srev r < srev nx)%Z /\
+      forall h2, quiet_run_b hash slices (os_id (ds_set r)) w1 h2 = true ->
+        let w2 := run hash slices w1 h2 in
+        forall f mem k,
+          find_set (sw_sets (to_sworld w2)) (set_kind w2) (oi_ns (d_id (dw_dep w2))) n = Some mem -> os_id mem = os_id (ds_set r) ->
+          (os_deleting mem = true \/ os_life mem = LArchived) ->
+          In k (full_objects slices nx) -> stored w2 k <> None -> stored (do_step hash slices w2 (SSet f n)) k <> None.
+Proof. exact handover_sound_partial. Qed.
+Print Assumptions C08_handover_sound_partial.
+
+(** The hypotheses of (ii) are satisfiable by a history from an empty cluster in which the teardown does delete an object. *)
+Example C08_handover_premises_satisfiable :
+  exists w1 evs res r,
+    NoDup (map sname (dw_sets ex_world)) /\
+    dep_pass wit_hash None no_slices false ex_world = (w1, evs, res) /\ In (DUpdate 100 LArchived false WOk) evs /\
+    find_dset (dw_sets ex_world) 100 = Some r /\
+    no_newer_available_b (listed false ex_world) r = true /\ ctrl_complete_b ex_world r = true /\
+    quiet_run_b wit_hash no_slices (os_id (ds_set r)) w1 ex_after = true /\
+    stored (run wit_hash no_slices w1 ex_after) (hw_key 2 1) <> None /\
+    stored (do_step wit_hash no_slices (run wit_hash no_slices w1 ex_after) (SSet false 100)) (hw_key 2 1) = None /\
+    stored (do_step wit_hash no_slices (run wit_hash no_slices w1 ex_after) (SSet false 100)) (hw_key 2 3) <> None.
+Proof. exact handover_premises_satisfiable. Qed.
+
+(** (iii) Towards the invariant "Paused=True confirmed => status.controllerOf covers what the revision controls": REFUTED as stated
+    (C08_handover_refuted_truncated, C08_handover_refuted_cache_label give reachable states with Paused=True stored, the spec
+    paused or archived, and a controlled object missing from controllerOf). Proved are the two status lemmas every step of such an
+    invariant rests on; the per-step preservation theorem itself (C08_paused_controllerof_invariant) is NOT proved.
+    (a) A deployment pass (any fault, stale or fresh) never writes an ObjectSet's status: every ObjectSet afterwards is new (empty
+    status) or an old one with identity, conditions, controllerOf, revision, phases and previous list unchanged, whose
+    lifecycle state is the old one or that of an Update request of the pass. *)
+Theorem C08_status_after_deployment_pass :
+  forall hash fault slices stale w w' evs r,
+    dep_pass hash fault slices stale w = (w', evs, r) ->
+    forall x', In x' (dw_sets w') ->
+      (exists x, In x (dw_sets w) /\ sstat x' = sstat x /\
+                 (slife x' = slife x \/ exists pbp ur, In (DUpdate (sname x') (slife x') pbp ur) evs)) \/
+      (sconds x' = [] /\ os_ctrlof (ds_set x') = []).
+Proof. exact (fun hash fault slices => dep_pass_status hash fault slices true true). Qed.
+Print Assumptions C08_status_after_deployment_pass.
+
+(** (b) A pass of the ObjectSet controller (active, paused, archival or deletion) changes the stored status of its own ObjectSet
+    only: Paused=True is newly written only for a paused spec, and status.controllerOf afterwards is the old list, empty, or the
+    list the phase loop of this pass computed ([loop_ctrlof]: from the store as it was when the pass started). *)
+Theorem C08_status_after_objectset_pass :
+  forall force sw k ns n mem0 sw' evs r,
+    find_set (sw_sets sw) k ns n = Some mem0 -> NoDup (map (fun y => oi_name (os_id y)) (sw_sets sw)) ->
+    objectset_pass force sw k ns n = (sw', evs, r) ->
+    forall y, In y (sw_sets sw') ->
+      In y (sw_sets sw) \/
+      (os_id y = os_id mem0 /\ os_life y = os_life mem0 /\ os_phases y = os_phases mem0 /\ os_prev y = os_prev mem0 /\
+       (cond_true (os_conds y) CPaused = true -> cond_true (os_conds mem0) CPaused = true \/ os_life mem0 = LPaused) /\
+       (os_ctrlof y = os_ctrlof mem0 \/ os_ctrlof y = [] \/ loop_ctrlof force sw mem0 (os_ctrlof y))).
+Proof. exact status_after_pass. Qed.
+Print Assumptions C08_status_after_objectset_pass.
